@@ -13,7 +13,7 @@
 From Coq Require Import String ZArith NArith List Bool.
 Require Import PV.Base.PyStrOps PV.Gen.Codecs PV.Model.Files.
 Require Import PV.Proofs.FilesStr PV.Proofs.FilesText PV.Proofs.Files.
-Require Import PV.Proofs.FilesCodec PV.Proofs.FilesChunks PV.Proofs.FilesReaders.
+Require Import PV.Proofs.FilesCodec PV.Proofs.FilesChunks PV.Proofs.FilesReaders PV.Proofs.FilesOrder.
 Import ListNotations.
 Open Scope Z_scope.
 
@@ -167,6 +167,46 @@ Theorem C08_whole_text_refuted :
   forall (compress : codec -> bytes -> bytes) (decompress : codec -> bytes -> option bytes),
   ~ C08_whole_text_full compress decompress.
 Proof. exact whole_text_refuted. Qed.
+
+(* wholeTextFiles over a data set written by saveAsTextFile: one pair per data file, keyed by its path,
+   holding exactly the text of its partition (the text a save writes never contains a carriage return) *)
+Theorem C08_whole_text_saved :
+  forall (compress : codec -> bytes -> bytes) (decompress : codec -> bytes -> option bytes),
+  (forall c b, decompress c (compress c b) = Some b) ->
+  forall (f : fs) (p : path) (parts : list (list str)) (minPartitions : option Z),
+  fs_exists f p = false -> ends_with p [slash] = false -> contains_char slash p = true ->
+  Z.of_nat (length parts) <= 100000 ->
+  Forall (Forall no_break) parts -> Forall (Forall scalar_str) parts ->
+  exists f' pss,
+    save_text compress f p parts = Ok f' /\
+    whole_text_files decompress f' p minPartitions = Ok pss /\
+    concat pss = map (fun nx => (fst nx, concat (map text_line (snd nx))))
+                     (combine (data_names text_codec_suffix p parts) (chunks parts)).
+Proof. exact whole_text_saved. Qed.
+
+(* ---------- the model lists files in write order, a directory walk in any order: it does not matter *)
+Theorem C08_readers_listing_order :
+  forall (decompress : codec -> bytes -> option bytes) (f1 f2 : fs) (expr : str) (minPartitions : option Z),
+  Permutation.Permutation f1 f2 -> NoDup (map fst f1) ->
+  read_text decompress f1 expr minPartitions = read_text decompress f2 expr minPartitions /\
+  whole_text_files decompress f1 expr minPartitions = whole_text_files decompress f2 expr minPartitions /\
+  binary_files decompress f1 expr minPartitions = binary_files decompress f2 expr minPartitions /\
+  (forall rl, binary_records decompress f1 expr rl = binary_records decompress f2 expr rl).
+Proof. exact readers_listing_order. Qed.
+
+Theorem C08_pickle_file_listing_order :
+  forall (decompress : codec -> bytes -> option bytes) (obj : Type) (loads : bytes -> res (list obj))
+         (f1 f2 : fs) (expr : str) (minPartitions : option Z),
+  Permutation.Permutation f1 f2 -> NoDup (map fst f1) ->
+  pickle_file decompress obj loads f1 expr minPartitions = pickle_file decompress obj loads f2 expr minPartitions.
+Proof. exact pickle_file_listing_order. Qed.
+
+(* the bound of 100000 partitions in the round-trip theorems is the code's own: the name of part 100000
+   sorts strictly before the name of part 99999 *)
+Theorem C08_partition_bound_tight : forall s,
+  str_leb (std_part_name 100000 s) (std_part_name 99999 s) = true /\
+  std_part_name 100000 s <> std_part_name 99999 s.
+Proof. exact part_100000_sorts_first. Qed.
 
 (* ---------- supporting facts used above, stated for every input *)
 (* Context.parallelize hands out every element exactly once, in order, for every slice count *)
